@@ -25,8 +25,6 @@ const (
 	sigShadow   = "unique-check-consults-row-deleted-earlier-in-statement"
 	sigCI       = "ci-collation-key:compared-bytewise"
 	sigPrefix   = "prefix-key:prefix-cut-in-bytes-not-characters"
-	sigF15      = "replace-multi-conflict:counts-one-deleted-row-per-new-row"
-	sigRowCount = "delete-without-where:row_count()-not-set"
 )
 
 // engineCmp is how the engine's editor compares key parts (raw values, byte prefixes).
@@ -58,14 +56,10 @@ func hasPrefixKey(t *g8alib.Table) bool {
 	return false
 }
 
-// sameOutcome: the engine did exactly what this alternative execution prescribes (F15's count
-// deviation is tolerated on top, it is an independent defect of the counting code).
+// sameOutcome: the engine did exactly what this alternative execution prescribes (error-or-not,
+// duplicate class, resulting rows).
 func sameOutcome(st *g8alib.Stmt, o *g8alib.Outcome, rows []string, obs *g8alib.Observed) bool {
-	m := g8alib.Mismatch(o, rows, obs)
-	if m == "affected-count" && st.Kind == g8alib.SReplace && o.MultiDelete && obs.Aff == o.AffCapped {
-		m = ""
-	}
-	return m == ""
+	return g8alib.MismatchKeysOnly(o, rows, obs) == ""
 }
 
 func altModel(pre *g8alib.Table, st *g8alib.Stmt, obs *g8alib.Observed, kc g8alib.KeyCmp) bool {
@@ -76,12 +70,6 @@ func altModel(pre *g8alib.Table, st *g8alib.Stmt, obs *g8alib.Observed, kc g8ali
 
 // classify names the failure class of a mismatch between engine and reference.
 func classify(sc *g8alib.Schema, pre *g8alib.Table, st *g8alib.Stmt, exp *g8alib.Outcome, expRows []string, obs *g8alib.Observed, mode string) string {
-	if st.Kind == g8alib.SReplace && exp.MultiDelete && mode == "affected-count" && obs.Aff == exp.AffCapped {
-		return sigF15
-	}
-	if st.Kind == g8alib.SDelete && st.Where == nil && mode == "row_count()-differs-from-ok-packet" {
-		return sigRowCount
-	}
 	ci, px := hasFoldingKey(pre), hasPrefixKey(pre)
 	// one wrong comparison rule alone explains the engine
 	if ci && altModel(pre, st, obs, g8alib.KeyCmp{IgnoreCollation: true}) {
@@ -90,8 +78,18 @@ func classify(sc *g8alib.Schema, pre *g8alib.Table, st *g8alib.Stmt, exp *g8alib
 	if px && altModel(pre, st, obs, g8alib.KeyCmp{PrefixInBytes: true}) {
 		return sigPrefix
 	}
-	if ci && px && altModel(pre, st, obs, engineCmp) {
-		return sigCI + "+" + sigPrefix
+	// … or the engine did exactly what its row editor does when it compares key parts as raw values
+	// (pending-edit maps, primary key before unique keys, collation-aware "row changed" test)
+	if ci || px {
+		if o, rows, ok := pre.ApplyLikeAccumulator(st, g8alib.EmulOpts{Cmp: engineCmp}); ok && sameOutcome(st, o, rows, obs) {
+			switch {
+			case ci && px:
+				return sigCI + "+" + sigPrefix
+			case ci:
+				return sigCI
+			}
+			return sigPrefix
+		}
 	}
 	// defects of the per-statement edit accumulator, recognised by emulating it
 	raw := pre.Clone()
@@ -147,12 +145,19 @@ func main() {
 	r.Assume("WHERE / ORDER BY never compare a string column with a non-binary collation (only key equality is modelled for those); LIMIT and multi-row key updates only with a total ORDER BY; ODKU only with at most one conflicting row")
 	r.Assume("prefix PRIMARY KEYs are not generated (the engine rejects them as unsupported)")
 
+	// input classes of known findings via=domain stay excluded only while their witness still fails
+	excl := g8alib.ProbeKnown()
+	r.Extra("excluded_input_classes_still_defective", fmt.Sprintf("%+v", excl))
+	r.Assume("excluded while their pinned witnesses fail (known findings via=domain, see findings/C13.txt, C14.txt): statements that process a row agreeing on a unique key with a row version deleted/updated earlier in the same statement; col <> fractional literal on an indexed DECIMAL column; out-of-range integer assignments")
+	r.Assume("affected/matched counts, ROW_COUNT() and the class of non-duplicate errors are not judged here (C13 does)")
+
 	n := r.N(400, 10000)
 	r.Parallel("hist", n, func(i int) {
 		rnd := r.Rand("hist", i)
 		dom := g8alib.C14Domains[i%len(g8alib.C14Domains)]
 		sc := g8alib.GenSchemaC14(rnd, dom)
-		cfg := &g8alib.HistoryCfg{Classify: classify, Invariant: true, Steps: 25 + rnd.Intn(36)}
+		sc.T.Excl = excl
+		cfg := &g8alib.HistoryCfg{Classify: classify, Invariant: true, KeysOnly: true, Steps: 25 + rnd.Intn(36)}
 		if rnd.Intn(3) == 0 {
 			cfg.Txn = 6
 		}
@@ -259,6 +264,21 @@ func pinned(r *core.Run) {
 		}
 		r.Pinned(sigPrefix, fmt.Sprintf("UNIQUE KEY (s(3)) holding 'ééé1' rejects 'ééx': %v (the 3-character prefixes 'ééé' and 'ééx' differ; their first 3 bytes agree)", res.Err), fails,
 			map[string]any{"setup": sc.setup, "sql": sc.sql, "error": fmt.Sprint(res.Err), "expected": "row inserted"})
+		done()
+	}
+	// both comparison defects in one statement: prefix unique key on a case-insensitive column
+	{
+		sc := script{[]string{"CREATE TABLE t (id INT PRIMARY KEY, s VARCHAR(8) COLLATE utf8mb4_0900_ai_ci, UNIQUE KEY ps (s(2)))", "INSERT INTO t VALUES (1,'ab'),(2,'éa')"},
+			"INSERT IGNORE INTO t VALUES (3,'AB'),(4,'éb')"}
+		res, rows, done := run(sc)
+		right := core.SameStrings(rows, []string{"1|'ab'", "2|'éa'", "4|'éb'"})
+		fails := res.Err == nil && core.SameStrings(rows, []string{"1|'ab'", "2|'éa'", "3|'AB'"})
+		if !fails && !(res.Err == nil && right) {
+			// one of the two defects alone may have been repaired: then the single-defect witnesses above tell
+			r.Count("pinned.combined-witness-other-outcome", 1)
+		}
+		r.Pinned(sigCI+"+"+sigPrefix, fmt.Sprintf("UNIQUE KEY (s(2)) on utf8mb4_0900_ai_ci holding 'ab','éa': INSERT IGNORE ('AB'),('éb') stores %v (reference: 'AB' skipped as duplicate of 'ab', 'éb' stored)", rows), fails,
+			map[string]any{"setup": sc.setup, "sql": sc.sql, "rows": rows, "expected": "1|'ab' ; 2|'éa' ; 4|'éb'"})
 		done()
 	}
 	// unique check consults a row deleted earlier in the statement
